@@ -1,15 +1,25 @@
 (* C03 -- a feasible job always completes: no deadlock, livelock or scheduler crash.
    Model and invariant: Sched/Model.v, Sched/Inv*.v (as C02/C04); progress: Sched/Progress.v,
-   Sched/Rounds.v.  What is proved at full strength: the controller never raises, for any
-   schedule and event order; completeness at exit when each task's publications are delivered
-   in order.  What is _partial: deadlock-freedom and "never spins" are proved from the
-   observable predicate [assign_progress] (after the assign phase, something computable implies
-   something running); that the heuristic inside scheduler.assign establishes it is validated on
-   every round of every recorded run (Sched/Replay.v), not proved.  The number of
-   rounds: C03_events_bounded bounds the events ever handed to the controller, hence the waiting rounds.  Two genuine defects of the unchanged code are recorded as _refuted. *)
+   Sched/Rounds.v; the assignment heuristic (scheduler.api.assign, assign_within_component,
+   _assignment_heuristic, migration of hosts between components): Sched/Heur.v, proved in
+   Sched/HeurProofs.v / HeurEnabled.v / ProgressFull.v.
+   Proved at full strength: the controller never raises (for any schedule and event order, also when
+   its assignments are the ones the heuristic computes, the heuristic's own lookups included);
+   deadlock freedom (whenever the heuristic-driven controller is about to wait, something is
+   outstanding) for every reachable state, every tie-break/distance oracle; "a round with a true guard
+   waits" and completeness at exit when each task's publications are delivered in order; the number of
+   events, hence of waiting rounds, is bounded.  Hypotheses are about the INPUT only: the job is a DAG
+   over its own tasks (wf_job, wf_dag), the preschedule's components partition it and are closed under
+   its edges (wf_comps: decidable, checked on every recorded run; C16 proves it of precompute), the
+   cluster is feasible (a worker exists; a GPU worker if a task needs one).  The two theorems named
+   _partial are the older statements relative to the observable predicate [assign_progress]; they are
+   kept because the trace replay validates that predicate on every recorded round as well.
+   Two genuine defects of the unchanged code are recorded as _refuted (out-of-order delivery of one
+   task's publications; a requested output whose value is None). *)
 From stdpp Require Import gmap.
 From Coq Require Import NArith String.
 From EKW Require Import Sched.Model Sched.Inv Sched.InvInit Sched.Safety Sched.Progress Sched.Rounds Sched.Bound Sched.Example Sched.WfDec.
+From EKW Require Import Sched.Heur Sched.HeurProofs Sched.HeurEnabled Sched.ProgressFull.
 From EKW Require Sched.Replay.
 Local Open Scope N_scope.
 
@@ -51,6 +61,58 @@ Proof.
   intros J E rank ls s Hwf Hdag Hr.
   destruct (run_io_inv_inorder J E Hwf ls _ _ (inv_init J E) (inorder_init J E Hwf) Hr) as [Hinv Hio].
   exact (exit_complete J E Hwf rank s Hdag Hinv Hio).
+Qed.
+
+(* ---- the same with the assignment heuristic modelled instead of assumed ---------------------- *)
+
+(* the heuristic-driven controller x cluster system never raises: neither the bookkeeping of Model.v
+   nor the heuristic's own lookups (host2component, components, ts2component) *)
+Theorem C03_never_raises_heuristic : ∀ J E K hls, wf_job J → wf_comps J K →
+  (∀ e, hrun J E (init J E, hinit J E K) hls ≠ Crash e) ∧ (∀ e, hrun J E (init J E, hinit J E K) hls ≠ Fail e).
+Proof. intros J E K hls Hwf Hwk. exact (never_raises_full J E K Hwf Hwk hls). Qed.
+
+(* deadlock freedom, no hypothesis on the heuristic: in ANY reachable state, for ANY oracle (set/dict
+   iteration orders, distance and overhead tables, tie-breaks), after  assign* ; plan ; flush  a
+   controller that waits has something to wait for *)
+Theorem C03_wait_implies_outstanding : ∀ J E K rank hls s hs o srcs s1 hs1 s2 cs,
+  wf_job J → wf_comps J K → feasible J E → wf_dag J rank → (∀ d, d ∈ j_ext J → d ∉ j_none J) →
+  hrun J E (init J E, hinit J E K) hls = Next (s, hs) →
+  hexec J E (s, hs) (HAssign o srcs) = Next (s1, hs1) →
+  exec J E s1 LFlush = Next (s2, cs) →
+  has_awaitable J (ctl s2) = true → outstanding J E s2.
+Proof.
+  intros J E K rank hls s hs o srcs s1 hs1 s2 cs Hwf Hwk Hfe.
+  exact (wait_implies_outstanding_full J E K Hwf Hwk Hfe rank hls s hs o srcs s1 hs1 s2 cs).
+Qed.
+
+(* and that round can always be taken: the pairs the heuristic computes are admissible when their
+   turn comes, so the hypotheses above are never vacuous *)
+Theorem C03_round_exists : ∀ J E K hls s hs o, wf_job J → wf_comps J K →
+  hrun J E (init J E, hinit J E K) hls = Next (s, hs) →
+  ∃ srcs s1 hs1 s2 cs, hexec J E (s, hs) (HAssign o srcs) = Next (s1, hs1) ∧ exec J E s1 LFlush = Next (s2, cs).
+Proof. intros J E K hls s hs o Hwf Hwk. exact (round_exists J E K Hwf Hwk hls s hs o). Qed.
+
+(* no spin (publications of a task delivered in order): a loop iteration entered with a true guard
+   ends up waiting *)
+Theorem C03_round_waits : ∀ J E K rank hls s hs o srcs s1 hs1 s2 cs,
+  wf_job J → wf_comps J K → feasible J E → wf_dag J rank →
+  hrun_io J E (init J E, hinit J E K) hls = Next (s, hs) →
+  has_computable (ctl s) || has_awaitable J (ctl s) = true →
+  hexec J E (s, hs) (HAssign o srcs) = Next (s1, hs1) → exec J E s1 LFlush = Next (s2, cs) →
+  has_awaitable J (ctl s2) = true.
+Proof.
+  intros J E K rank hls s hs o srcs s1 hs1 s2 cs Hwf Hwk Hfe.
+  exact (round_waits_full J E K Hwf Hwk Hfe rank hls s hs o srcs s1 hs1 s2 cs).
+Qed.
+
+(* the observable predicate of the two _partial theorems is a theorem of the modelled heuristic *)
+Theorem C03_assign_progress : ∀ J E K rank hls s hs o srcs s1 hs1,
+  wf_job J → wf_comps J K → feasible J E → wf_dag J rank →
+  hrun_io J E (init J E, hinit J E K) hls = Next (s, hs) →
+  hexec J E (s, hs) (HAssign o srcs) = Next (s1, hs1) → assign_progress (ctl s1).
+Proof.
+  intros J E K rank hls s hs o srcs s1 hs1 Hwf Hwk Hfe.
+  exact (assign_progress_full J E K Hwf Hwk Hfe rank hls s hs o srcs s1 hs1).
 Qed.
 
 (* bounded: over any run, under any schedule and event order, the controller is handed at most
@@ -109,7 +171,15 @@ Example C03_nonvacuous :
   end = true.
 Proof. vm_compute. reflexivity. Qed.
 
+(* non-vacuity of the heuristic-driven statements: Sched/ProgressFull.v progress_full_nonvacuous *)
+Example C03_heuristic_nonvacuous := progress_full_nonvacuous.
+
 Print Assumptions C03_never_raises.
+Print Assumptions C03_never_raises_heuristic.
+Print Assumptions C03_wait_implies_outstanding.
+Print Assumptions C03_round_exists.
+Print Assumptions C03_round_waits.
+Print Assumptions C03_assign_progress.
 Print Assumptions C03_wait_implies_outstanding_partial.
 Print Assumptions C03_round_waits_partial.
 Print Assumptions C03_exit_complete.
